@@ -740,7 +740,8 @@ class PipeWorld(World):
             if c > last:
                 pieces.append(wire[last:c])
                 last = c
-        pieces.append(wire[last:])
+        if wire[last:] or not pieces:
+            pieces.append(wire[last:])      # (a cut at the very end leaves no piece of its own: the packet is complete with the one before)
         if len(pieces) > 1:
             self.stats['fault.rechunk'] += 1
         # a byte stream is sequential: pieces are queued and fed strictly in order
